@@ -42,7 +42,7 @@ def bounds(tier):
 
 def _vectors(tier):
     vs = A.vectors4(tier)
-    return vs if tier == "thorough" else vs[::2]
+    return vs if tier == "thorough" else A.representatives(vs, (len(vs) + 1) // 2)
 
 
 def shards(tier):
